@@ -24,6 +24,7 @@ type SpecModule struct {
 }
 
 type SpecPred struct {
+	SortFrom *CExpr // template predicates: the sort parameter %S% is the sort of this expression (over the formals)
 	Name    string
 	Module  string
 	Formals []string
@@ -144,6 +145,15 @@ func parsePredDecl(s, path string, ln int) (*SpecPred, error) {
 	}
 	parts := strings.Split(rest, "|")
 	p.Fun = strings.TrimSpace(parts[0])
+	if fs := strings.Fields(p.Fun); len(fs) == 3 && fs[1] == "sortof" {
+		// "<fun> sortof <expr>"
+		e, err := parseCExpr(fs[2])
+		if err != nil {
+			return nil, fmt.Errorf("%s:%d: %v", path, ln, err)
+		}
+		p.Fun = fs[0]
+		p.SortFrom = e
+	}
 	for _, a := range parts[1:] {
 		a = strings.TrimSpace(a)
 		fs := strings.SplitN(a, " ", 2)
@@ -185,30 +195,42 @@ func (sl *SpecLib) apply(ec *EvalCtx, e *CExpr) Val {
 	if len(e.Args) != len(p.Formals) {
 		fail("@%s expects %d arguments", e.Name, len(p.Formals))
 	}
-	sl.need(st.vc, p.Module)
 	sub := ec.child()
 	sub.names = copyNames(ec.names)
 	for i, f := range p.Formals {
 		sub.bound[f] = ec.eval(e.Args[i])
 	}
+	inst := ""
+	fun := p.Fun
+	if p.SortFrom != nil {
+		inst = sub.evalTerm(p.SortFrom).Sort
+		sl.need(st.vc, p.Module+"<"+inst+">")
+		fun = strings.ReplaceAll(fun, "%S%", inst)
+	} else {
+		sl.need(st.vc, p.Module)
+	}
 	var args []Term
 	for _, a := range p.Args {
 		switch a.kind {
 		case "heap", "old":
-			st.vc.setKeySort(a.key, a.sort)
+			key, srt := a.key, a.sort
+			if inst != "" {
+				key, srt = strings.ReplaceAll(key, "%S%", inst), strings.ReplaceAll(srt, "%S%", inst)
+			}
+			st.vc.setKeySort(key, srt)
 			if ec.inOld || a.kind == "old" {
-				args = append(args, st.oldGet(a.key))
+				args = append(args, st.oldGet(key))
 			} else {
-				args = append(args, st.get(a.key))
+				args = append(args, st.get(key))
 			}
 		case "expr":
 			args = append(args, sub.evalTerm(a.expr))
 		}
 	}
 	if len(args) == 0 {
-		return TV{Term{p.Fun, p.Sort}, nil}
+		return TV{Term{fun, p.Sort}, nil}
 	}
-	return TV{app(p.Fun, p.Sort, args...), nil}
+	return TV{app(smtIdent(fun), p.Sort, args...), nil}
 }
 
 // variantOf: modules with variants ("heaporder.abs" / "heaporder.pq") are selected by the package being verified.
@@ -235,7 +257,26 @@ func (vc *VC) specVariant() string {
 	return "pq"
 }
 
+func baseModule(mod string) (string, string) {
+	if i := strings.Index(mod, "<"); i > 0 && strings.HasSuffix(mod, ">") {
+		return mod[:i], mod[i+1 : len(mod)-1]
+	}
+	return mod, ""
+}
+
 func (sl *SpecLib) need(vc *VC, mod string) {
+	if b, inst := baseModule(mod); inst != "" {
+		if vc.modules[mod] {
+			return
+		}
+		vc.modules[mod] = true
+		if m := sl.Modules[b]; m != nil {
+			for _, r := range m.Requires {
+				sl.need(vc, r)
+			}
+		}
+		return
+	}
 	mod = sl.resolve(mod, vc.specVariant())
 	if vc.modules[mod] {
 		return
@@ -262,11 +303,22 @@ func (sl *SpecLib) prelude(mods map[string]bool) string {
 	var order []string
 	seen := map[string]bool{}
 	var visit func(n string)
+	insts := map[string]string{}
 	visit = func(n string) {
 		if seen[n] {
 			return
 		}
 		seen[n] = true
+		if b, inst := baseModule(n); inst != "" {
+			insts[n] = inst
+			if m := sl.Modules[b]; m != nil {
+				for _, r := range m.Requires {
+					visit(sl.resolve(r, variant))
+				}
+				order = append(order, n)
+			}
+			return
+		}
 		m := sl.Modules[n]
 		if m == nil {
 			return
@@ -282,6 +334,11 @@ func (sl *SpecLib) prelude(mods map[string]bool) string {
 	var b strings.Builder
 	for _, n := range order {
 		b.WriteString("; --- module " + n + "\n")
+		if inst, ok := insts[n]; ok {
+			bm, _ := baseModule(n)
+			b.WriteString(strings.ReplaceAll(sl.Modules[bm].Text, "%S%", inst))
+			continue
+		}
 		b.WriteString(sl.Modules[n].Text)
 	}
 	return b.String()
